@@ -309,3 +309,19 @@ Print Assumptions C20_noninterference_registration.
 Print Assumptions C20_length_leaks.
 Print Assumptions C20_ok_model.
 Print Assumptions C20_ok_concrete.
+
+(* generated-code tie, stage 6: the PASS mask.  The Gallina TRANSLATION of the write method of Conn
+   (Gen/GoFuncs.v; see gen_C10_write in Props/C10.v) OBSERVES its logging.Debug call instead of
+   dropping it: the record (level, format, string arguments) is an output.  It is emitted only
+   after both I/O calls succeeded, its format is "-> %s" and its argument is the MASKED line —
+   the model's out_rec is that record formatted (m_out is the format's prefix). *)
+From Verif Require Import GoFuncs GenEqWrite.
+Theorem gen_C20_write_mask : forall flood bad last line a a' iow ioe,
+  exists r, go_client_Conn_write bad flood last line a a' iow ioe = Ok r
+  /\ ws_logs r = (if snd iow || ioe then [] else [(lv_Debug, fmt_out, [mask line])])
+  /\ out_rec line = (LDebug, m_out ++ mask line)
+  /\ fmt_out = m_out ++ [37; 115]%N.
+Proof.
+  intros. eexists. split; [apply go_write_eq|]. split; [apply write_spec_log|]. split; reflexivity.
+Qed.
+Print Assumptions gen_C20_write_mask.
